@@ -284,11 +284,13 @@ def ksAsympCdf (x : α) : α :=
     if RealLike.feq u (0.0 : α) then
       clamp01 (RealLike.exp (logu8 / (8.0 : α) + RealLike.ln w))
     else
-      let u8cub := RealLike.powi (RealLike.exp logu8) 3
+      -- Horner steps u²⁴, u¹⁶, u⁸ (dist/ks.rs after the repair of the series: 1 + u⁸ + u²⁴ + u⁴⁸)
+      let u8 := RealLike.exp logu8
+      let u8cub := RealLike.powi u8 3
       let p : α := (1.0 : α)
       let p := mulAdd u8cub p (1.0 : α)
-      let p := mulAdd u8cub p (1.0 : α)
-      let p := mulAdd u8cub p (1.0 : α)
+      let p := mulAdd (u8 * u8) p (1.0 : α)
+      let p := mulAdd u8 p (1.0 : α)
       clamp01 (p * (w * u))
   else
     let v := RealLike.exp ((-(2.0 : α)) * x * x)
